@@ -8,15 +8,18 @@ for line in open(out):
     m=re.search(r'BOUNDED-FAIL lens=\[([0-9,]*)\] prefill=(\d): (.*)',line.strip())
     if not m: continue
     lens,pf,msg=m.groups()
+    dist=''
+    if ' | dist=[' in msg:
+        msg,dist=msg.split(' | dist=[',1); dist=dist.rstrip(']')
     cls=re.sub(r'0x[0-9a-f]+|[0-9]+','N',msg)[:70]
     if cls in seen: continue
     seen[cls]=1
-    kind='clc' if ('code length code' in msg or 'GenerateForHeader' in msg or 'clcOK' in msg) else 'dist'
+    kind='hdr' if dist else ('clc' if ('code length code' in msg or 'GenerateForHeader' in msg or 'clcOK' in msg) else 'dist')
     name='bounded_%stab_'%kind+re.sub(r'[^A-Za-z]+','_',cls)[:50]
     path='%s/%s/%s.json'%(os.environ.get('VERIF_REPLAY_ROOT','/verif/replays'),prop,name)
     os.makedirs(os.path.dirname(path),exist_ok=True)
-    json.dump({"property":prop,"obligation":"bounded[%stab]: "%kind+cls,"failing_input":{"distance_code_lengths":lens,"prefill":int(pf)},"message":msg,
-      "replay_cmd":"VERIF_BOUNDED_KIND=%s VERIF_BOUNDED_LENS=%s VERIF_BOUNDED_PREFILL=%s /verif/tools/bounded_replay.sh"%(kind,lens,pf)},open(path,'w'),indent=1)
+    json.dump({"property":prop,"obligation":"bounded[%stab]: "%kind+cls,"failing_input":({"literal_length_code_lengths":lens,"distance_code_lengths":dist,"multi_symbol_mode":int(pf)} if kind=="hdr" else {("code_length_code_lengths" if kind=="clc" else "distance_code_lengths"):lens,"prefill":int(pf)}),"message":msg,
+      "replay_cmd":"VERIF_BOUNDED_KIND=%s VERIF_BOUNDED_LENS=%s VERIF_BOUNDED_DIST=%s VERIF_BOUNDED_PREFILL=%s /verif/tools/bounded_replay.sh"%(kind,lens,dist,pf)},open(path,'w'),indent=1)
     isknown=any(l.startswith('finding:') and ('property=%s '%prop) in l and cls in l for l in kf)
     if isknown: print("KNOWN-FINDING: property=%s bounded[disttab] %s"%(prop,cls))
     else: print("VIOLATION property=%s replay=%s"%(prop,path))
